@@ -1,5 +1,6 @@
 import PMH.Proofs.RealAnalysis
 import PMH.Proofs.Exp01Law
+import PMH.Proofs.GenEq
 /-!
 # C16 — the truncated-exponential sampler: range, exact acceptance region, target density
 
@@ -102,5 +103,34 @@ theorem iid_uniform_draws_exist :
       (U : ℕ → Ω → ℝ), (∀ i, Measurable (U i)) ∧ iIndepFun U μ ∧
         ∀ i, μ.map (U i) = volume.restrict (Ico (0:ℝ) 1) := iid_uniform_exists
 end Law
+
+
+/-! ### the same statements for the definitions GENERATED from `src/exp01.rs` on every check
+(`Model/Exp01Gen.lean`, `tools/translate_float.py`); the equalities of `Proofs/GenEq.lean` are re-proved on every run -/
+section Source
+open MeasureTheory ProbabilityTheory Set PMH.Exp01Law
+
+/-- the generated constants and sampler compute the same functions as the transcription -/
+theorem source_eq_model {G : Type} (lam : ℝ) (next : G → ℝ × G) (g : G) :
+    Gen.exp01Sample realOps (Gen.exp01New realOps lam) next g = Exp01.sample realOps (Exp01.new realOps lam) next g := by
+  rw [GenEq.exp01New_eq, GenEq.exp01Sample_eq]
+
+/-- **C16 (a), source** every sample lies in `[0,1)` -/
+theorem source_sample_in_unit_interval {G : Type} (lam : ℝ) (hl : 0 < lam) (next : G → ℝ × G)
+    (hnext : ∀ g, 0 ≤ (next g).1 ∧ (next g).1 < 1) (g : G) (x : ℝ) (g' : G)
+    (h : Gen.exp01Sample realOps (Gen.exp01New realOps lam) next g = .ok (x, g')) : 0 ≤ x ∧ x < 1 := by
+  rw [source_eq_model] at h; exact sample_in_unit_interval lam hl next hnext g x g' h
+
+/-- **C16 (h), source** distribution function of the generated sampler under i.i.d. uniform draws -/
+theorem source_sample_distribution_function {lam : ℝ} (hl : 0 < lam) {x : ℝ} (hx0 : 0 ≤ x) (hx1 : x ≤ 1)
+    {Ω : Type*} [MeasurableSpace Ω] (μ : Measure Ω) [IsProbabilityMeasure μ]
+    (U : ℕ → Ω → ℝ) (hU : ∀ i, Measurable (U i)) (hind : iIndepFun U μ)
+    (hunif : ∀ i, μ.map (U i) = volume.restrict (Ico (0:ℝ) 1)) :
+    μ {ω | ∃ y ∈ Ico (0:ℝ) x, ∃ g', Gen.exp01Sample realOps (Gen.exp01New realOps lam) (nextN fun i => U i ω) 0 = .ok (y, g')} =
+      ENNReal.ofReal ((1 - Real.exp (-lam * x)) / (1 - Real.exp (-lam)) -
+        (1 - 1 / (par lam).c1) * q lam ^ 10000 * J lam (Ico 0 x)) := by
+  simp only [source_eq_model]
+  exact sample_distribution_function hl hx0 hx1 μ U hU hind hunif
+end Source
 
 end PMH.C16
